@@ -104,23 +104,55 @@ Definition expected_ret (k : case03) (prev : obs) (h : hdr) (now : Z) (b : bifre
 Definition head_answer_ids (gate : bool) (prev : obs) (h : hdr) : list N :=
   if negb gate && (o_head prev =? h_height h) && negb (o_hid prev =? h_id h) then [] else [h_id h].
 
+(** direct verification of a delivery against the subjective head the implementation reported fails SOFTLY: only then
+    does bifurcation run, only then can its promotions [pr] enter ([verdict] of Model/Syncer.v, [enters] of
+    Proofs/SyncerInvP.v).  A call that had not decided yet at the observation (parked: [o_ret] = 3) verifies against
+    a later head: left open. *)
+Definition soft_delivery (k : case03) (prev o : obs) (h : hdr) (now : Z) : bool :=
+  if o_ret o =? 3 then true
+  else
+    match find (fun t => h_id t =? o_lid prev) (pool k) with
+    | None => false
+    | Some t => match Verify now (q_drift k) (link_tv (q_trust k)) t h with Some e => ve_soft e | None => false end
+    end.
+
+(** the header at the shim's head when the observation was taken: without the Append gate it is the Store's head *)
+Definition cache_of (k : case03) (prev : obs) : option hdr :=
+  if negb (q_gate k) && (o_head prev =? o_height prev)
+  then find (fun t => (h_height t =? o_head prev) && (h_id t =? o_hid prev)) (pool k) else None.
+
+(** a raw range answer that is REFUSED lets nothing in: no request outstanding, empty, first height not from+1
+    (requestHeaders), or not a walk from the shim's head (syncStore.Append: errNonAdjacent, nothing written) *)
+Definition raw_refused (k : case03) (prev : obs) (l : list hdr) : bool :=
+  match o_req prev, l with
+  | Some (f, _), x :: _ =>
+    negb (h_height x =? wrap64 (f + 1))
+    || match cache_of k prev with
+       | Some c => match shim_check c l with ShimNonAdj => true | _ => false end
+       | None => false
+       end
+  | _, _ => true
+  end.
+
 (** identities allowed in the store: initial, true chain (the getter's source),
-    raw answers, Head() answers (see above), promoted heads, and gossip headers
-    whose verifier call did not return an error *)
-Fixpoint allowed_ids (gate : bool) (all : list (dact * obs)) (res : list N) (i : nat) (prev : obs) (l : list (dact * obs)) : list N :=
+    raw answers that were not refused, Head() answers (see above), heads promoted by a bifurcation that ran, and
+    gossip headers whose verifier call did not return an error *)
+Fixpoint allowed_ids (k : case03) (all : list (dact * obs)) (res : list N) (i : nat) (prev : obs) (l : list (dact * obs)) : list N :=
+  let gate := q_gate k in
   match l with
   | [] => []
   | (a, o) :: r =>
     match a with
-    | DDeliver h _ (Bif pr _) | DDeliverP h _ (Bif pr _) =>
-      (if nth i res 0 =? 2 then [] else [h_id h]) ++ map h_id pr ++ allowed_ids gate all res (S i) o r
-    | DHead (Some h) => head_answer_ids gate prev h ++ allowed_ids gate all res (S i) o r
-    | DHead None | DHeadP _ => allowed_ids gate all res (S i) o r
+    | DDeliver h now (Bif pr _) | DDeliverP h now (Bif pr _) =>
+      (if nth i res 0 =? 2 then [] else [h_id h]) ++ (if soft_delivery k prev o h now then map h_id pr else [])
+      ++ allowed_ids k all res (S i) o r
+    | DHead (Some h) => head_answer_ids gate prev h ++ allowed_ids k all res (S i) o r
+    | DHead None | DHeadP _ => allowed_ids k all res (S i) o r
     | DRelT j =>
       (match nth_call all j with Some (DHeadP (Some h)) => head_answer_ids gate prev h | _ => [] end)
-      ++ allowed_ids gate all res i o r
-    | DAnswer (ARaw l) => map h_id l ++ allowed_ids gate all res i o r
-    | _ => allowed_ids gate all res i o r
+      ++ allowed_ids k all res i o r
+    | DAnswer (ARaw l) => (if raw_refused k prev l then [] else map h_id l) ++ allowed_ids k all res i o r
+    | _ => allowed_ids k all res i o r
     end
   end.
 
@@ -154,6 +186,11 @@ Fixpoint walk03 (k : case03) (prev : obs) (l : list (dact * obs)) : bool :=
         | DAnswer AErr => o_err o && (o_head o =? o_head prev) && (o_local o =? o_local prev) && (o_lid o =? o_lid prev)
         | _ => true
         end)
+    (* a refused raw answer aborts the attempt: State reports the error (unless a further sync has begun meanwhile) *)
+    && (match a with
+        | DAnswer (ARaw rl) => if raw_refused k prev rl then o_err o || negb (o_id o =? o_id prev) else true
+        | _ => true
+        end)
     (* a network head answer that comes with an error is adopted by nobody: not by the Head() call that asked, not by
        one that joined its request *)
     && (match a with
@@ -180,7 +217,7 @@ Definition ok03 (k : case03) : bool :=
   let h0 := h_height (last (q_init k) hdr_nil) in
   let i0 := h_id (last (q_init k) hdr_nil) in
   let o0 := Obs 0 h0 h0 i0 0 0 0 false h0 None i0 h0 in
-  let ids := map h_id (q_init k) ++ map h_id (q_chain k) ++ allowed_ids (q_gate k) (q_acts k) (q_results k) 0 o0 (q_acts k) in
+  let ids := map h_id (q_init k) ++ map h_id (q_chain k) ++ allowed_ids k (q_acts k) (q_results k) 0 o0 (q_acts k) in
   walk03 k o0 (q_acts k)
   && (match last_opt (map snd (q_acts k)) with
       | Some o =>
